@@ -1235,3 +1235,8 @@ impl From<&KeyCode> for OsCode {
         (*item).into()
     }
 }
+
+// Verification hook (add-only, compiled only by `cargo kani`): contract harnesses live in /verif.
+#[cfg(kani)]
+#[path = "/verif/kani/harness/keys.rs"]
+mod verif_kani;
